@@ -279,7 +279,21 @@ pub fn check_completed(c: &SetCase, obs: &mut Obs) -> Result<(), String> {
                 return Ok(());
             }
         };
-        sumapi::set(&mut s, *i, &v)?;
+        // ask before and after every call (an answer must never be remembered), and build list
+        // variables through push_* every other time
+        let set_so_far: Vec<usize> = c.vars.iter().take_while(|x| *x != i).copied().collect();
+        let complete_so_far = m::required().iter().all(|r| set_so_far.contains(r));
+        if s.is_completed() != complete_so_far {
+            return Err(format!("is_completed() = {} after setting {:?}", s.is_completed(), set_so_far));
+        }
+        match (&v, i % 2) {
+            (Val::L(l), 1) => {
+                for x in l {
+                    sumapi::push(&mut s, *i, x)?;
+                }
+            }
+            _ => sumapi::set(&mut s, *i, &v)?,
+        }
     }
     let want = m::required().iter().all(|r| c.vars.contains(r));
     obs.verdicts += 1;
